@@ -212,6 +212,27 @@ pub fn run(thorough: bool) -> Outcome {
     for l in header_lists(false, max) {
         msgs.push((Msg::response("HTTP/1.1", 200, "OK", l), "response-headers"));
     }
+    // header names that merely begin with, end with or contain the name of a header the analyzer treats specially (Cookie2 of
+    // RFC 2965, Cookie-Consent, X-Cookie, Referer-Policy, Server-Timing ...): alone, before and after the real one
+    {
+        let near_req: [(&str, &[&str]); 5] = [("Cookie", &["Cookie2", "Cookie-Consent", "X-Cookie", "Set-Cookie", "Cookies"]), ("Referer", &["Referer-Policy", "X-Referer", "Referers"]), ("User-Agent", &["User-Agent-Extra", "X-User-Agent", "User-Agents"]), ("Accept-Language", &["Accept-Language-X", "X-Accept-Language"]), ("Host", &["Hostname", "X-Host", "Host-Id"])];
+        for (real, nears) in near_req {
+            for near in nears {
+                let real_v = if real == "Cookie" { "sid=abc; theme=dark" } else if real == "Accept-Language" { "fr-CH, fr;q=0.9" } else { "real.example" };
+                let near_v = if real == "Cookie" { "$Version=1; other=2" } else if real == "Accept-Language" { "de" } else { "near.example" };
+                for l in [vec![(s(near), s(near_v))], vec![(s(real), s(real_v)), (s(near), s(near_v))], vec![(s(near), s(near_v)), (s(real), s(real_v))], vec![(s("Host"), s("h.example")), (s(&near.to_ascii_lowercase()), s(near_v)), (s("Accept"), s("*/*"))]] {
+                    if !dup_special(&l) {
+                        msgs.push((Msg::request("HTTP/1.1", "GET", "/p", l), "near-miss-header-names"));
+                    }
+                }
+            }
+        }
+        for near in ["Server-Timing", "X-Server", "Servers", "Server-Id"] {
+            for l in [vec![(s(near), s("near/1.0"))], vec![(s("Server"), s("real/2.0")), (s(near), s("near/1.0"))], vec![(s(near), s("near/1.0")), (s("Server"), s("real/2.0"))]] {
+                msgs.push((Msg::response("HTTP/1.1", 200, "OK", l), "near-miss-header-names"));
+            }
+        }
+    }
     // long lists: 99 and 100 headers
     for n in [98usize, 99, 100] {
         let mut l: Vec<(String, String)> = vec![(s("Host"), s("h"))];
